@@ -60,6 +60,11 @@ def grid_cases(rng, tier):
         upper=dict(model='6node', vf_coolant=0.4), rods=[0.15, 0.45])
     one('grid-region-bounds', t, gap_model='flow',
         setup={'include_gravity_head_loss': True})
+    # the same with the per-step pressure-drop dump: every dumped row shows
+    # the ledger of all regions swept so far (seed C14-14)
+    one('grid-region-bounds-dump', copy.deepcopy(t), gap_model='flow',
+        setup={'include_gravity_head_loss': True,
+               'Dump': {'pressure_drop': True}})
     one('nogrid-dd-gravity', bundle_type(3, nd=2), gap_model='flow',
         setup={'include_gravity_head_loss': True})
     one('nogrid-lowfi', bundle_type(3, use_low_fidelity_model=True),
@@ -165,7 +170,7 @@ def run(tier, res, replay=None):
         c = copy.deepcopy(base)
         c['setup']['axial_mesh_size'] = dz
         lab.append((name, c))
-    results = trackcheck.run(lab, res, C14_CLAUSES, opts={'dptable': True})
+    results = trackcheck.run(lab, res, C14_CLAUSES, opts={'dptable': True, 'dpdump': True})
     step_pairs(res, results)
     tr0 = results[0][0]
     res.sample({'case': tr0['label'], 'cfg': tr0['cfg'],
